@@ -528,7 +528,7 @@ func cliCases(r *mon.Run, w *world, origPath string) {
 		cases = append(cases, cc{"e-j:" + name, []string{"-e", "-j", name, "-o", "out.age", in}, wantJ, nil})
 		cases = append(cases, cc{"d-j:" + name, []string{"-d", "-j", name, "-o", "out.txt", "x.age"}, wantJ, nil})
 	}
-	for _, n := range []string{"x", "zz", "beside", "ZZ", "Ab", "a.b", "../x", "a/b", "sub/x", "/bin/sh", "..", "x/../y", `a\b`, "X", "a b", "$x", "q9"} {
+	for _, n := range []string{"x", "zz", "beside", "ZZ", "Ab", "age-plugin-x", "./age-plugin-x", "/usr/local/bin/age-plugin-x", "sub/age-plugin-zz", "age-plugin-", "a.b", "../x", "a/b", "sub/x", "/bin/sh", "..", "x/../y", `a\b`, "X", "a b", "$x", "q9"} {
 		addName(n)
 	}
 	// a valid X25519 file with plugin-looking stanza types, decrypted natively
@@ -549,8 +549,8 @@ func cliCases(r *mon.Run, w *world, origPath string) {
 	}
 	cases = append(noMatch, cases...)
 
-	if !r.Thorough() && len(cases) > 78 {
-		cases = cases[:78]
+	if !r.Thorough() && len(cases) > 100 {
+		cases = cases[:100]
 	}
 	for i, c := range cases {
 		os.WriteFile(filepath.Join(work, "x.age"), xfile, 0o600)
